@@ -84,6 +84,7 @@ type TAOpts struct {
 	FileHook         func(job *TAJob, param string, p string)      // called for every file a stage writes
 	ExtraFiles       bool                                          // stages also write files not named by outputs
 	FullReset        bool
+	PostProcessCrash int  // 1: crash after post-processing; 2: after the files were moved, before _outs was rewritten
 	RestartAfterFail bool // after a failure: restart once (the injected fault is gone) and continue
 }
 
@@ -110,6 +111,7 @@ type TARun struct {
 	LaunchHook         func(job *TAJob)
 	FailMsgs           []string
 	restartedAfterFail bool
+	ppCrashed          bool
 	stalls             int
 }
 
@@ -447,7 +449,7 @@ func (r *TARun) runStage(job *TAJob, fault string) ([]byte, error) {
 	case "split":
 		target = "_stage_defs"
 		rng := seedOf("__chunks")
-		n := []int{0, 1, 1, 2, 2, 3}[rng.Intn(6)]
+		n := []int{0, 1, 1, 2, 2, 3, 10, 2, 1, 3, 0, 2}[rng.Intn(12)] // 10: directory-name width boundary
 		chunks := make([]map[string]interface{}, n)
 		for i := range chunks {
 			c := map[string]interface{}{"__threads": 1, "__mem_gb": 1}
@@ -661,7 +663,26 @@ func (r *TARun) stepOnce() (done bool, progress bool) {
 		if r.Opts.VdrMode != "" && r.Opts.VdrMode != "disable" {
 			r.ps.VDRKill()
 		}
+		outsPath := path.Join(r.PsDir, r.Ast.Call.Id, "fork0", "_outs")
+		var savedOuts []byte
+		if r.Opts.PostProcessCrash != 0 && !r.ppCrashed {
+			savedOuts, _ = os.ReadFile(outsPath)
+		}
 		r.ps.PostProcess()
+		if r.Opts.PostProcessCrash != 0 && !r.ppCrashed {
+			// mrp dies during / right after post-processing and is restarted
+			r.ppCrashed = true
+			if r.Opts.PostProcessCrash == 2 && savedOuts != nil {
+				// ... after the files were moved but before _outs was rewritten
+				os.WriteFile(outsPath, savedOuts, 0o644)
+			}
+			r.log("postprocess-crash", "", fmt.Sprint(r.Opts.PostProcessCrash))
+			if err := r.Crash(); err != nil {
+				r.Final = "error:" + err.Error()
+				return true, false
+			}
+			return false, true
+		}
 		r.ps.Unlock()
 		r.Final = "complete"
 		return true, false
